@@ -38,6 +38,17 @@ class P0(ast.NodeTransformer):
         return h
 
 
+class PFuel(ast.NodeTransformer):
+    """`_vf.tick()` at the top of every loop body: deterministic busy-loop detector."""
+
+    def _loop(self, n):
+        self.generic_visit(n)
+        call = ast.Expr(ast.Call(ast.Attribute(ast.Name('_vf', ast.Load()), 'tick', ast.Load()), [], []))
+        n.body.insert(0, ast.copy_location(call, n))
+        return n
+    visit_While = visit_For = visit_AsyncFor = _loop
+
+
 class P1(ast.NodeTransformer):
     """After every module-level import statement: `_vf_rebind(globals())`."""
 
@@ -62,7 +73,7 @@ class ClassBases(ast.NodeTransformer):
         return n
 
 
-def load(relpath, modname, *, rebind=None, class_bases=None, extra_passes=(), inject=None, package='aiuti'):
+def load(relpath, modname, *, rebind=None, class_bases=None, extra_passes=(), inject=None, package='aiuti', fuel=True):
     """Compile /repo/<relpath> as it is on disk now into a fresh module object.
 
     rebind      {global name: replacement} applied after each module-level import
@@ -73,6 +84,8 @@ def load(relpath, modname, *, rebind=None, class_bases=None, extra_passes=(), in
     src = open(path).read()
     tree = ast.parse(src, path)
     tree = P0().visit(tree)
+    if fuel:
+        tree = PFuel().visit(tree)
     for p in extra_passes:
         tree = p.visit(tree)
     tree = P1().visit(tree)
